@@ -147,11 +147,9 @@ func (h *Header) Encode(body []byte) []byte {
 	}
 	binary.BigEndian.PutUint16(data[:2], id)
 	h.Property.BodyDayaLen = uint16(len(body)) // 消息的长度改为回复的body长度
-	if len(body) < 1000 {
-		h.Property.PacketFragmented = 0 // 不分包
-	} else {
-		//  需要把这个内容分多个包 ???目前感觉没必要 暂时不实现 因为下发的包都比较小
-	}
+	// 下发的数据都不写消息包封装项 所以任何长度都不能保留终端报文头的分包标识
+	// 大于1000字节需要分多个包的情况 ???目前感觉没必要 暂时不实现 因为下发的包都比较小
+	h.Property.PacketFragmented = 0
 	binary.BigEndian.PutUint16(data[2:4], h.Property.encode())
 	if h.ProtocolVersion == consts.JT808Protocol2019 {
 		// 2019版本的标识
